@@ -36,8 +36,7 @@ SYMBOL_RE = re.compile(r"^[1a-zA-ZÅₐ-ₜΑ-ω☉.°\-()]+$")
 
 
 def _magnitude_and_terms(m, u):
-    """what str() does with a unit, from its public fields only (used when the library's private helper of that name is
-    not there): the unit's prefix times the first factor's own is pushed into the first factor when it has a root of
+    """what str() does with a unit, from its public fields only: the unit's prefix times the first factor's own is pushed into the first factor when it has a root of
     that factor's exponent, else it becomes a leading magnitude"""
     terms = [(f.prefix, f.symbol, e) for f, e in u.factors.items()]
     (prefix, symbol, exponent), rest = terms[0], terms[1:]
@@ -53,12 +52,11 @@ def _magnitude_and_terms(m, u):
 
 def classify_unit_str(m, u, parsed_to=None):
     """mechanism key for a str() that does not parse back to the unit"""
-    from measured import formatting
-
     Unit = m.Unit
     try:
-        helper = getattr(formatting, "_unit_to_magnitude_and_terms", None)
-        magnitude, terms = helper(u) if helper is not None else _magnitude_and_terms(m, u)
+        # the rendering rule as it stands on the tree the findings were recorded on, re-stated here from public fields: a
+        # tree that renders otherwise (pushes the prefix somewhere else, say) and then collides is not that finding
+        magnitude, terms = _magnitude_and_terms(m, u)
     except Exception:
         return "C13:str-raised"
     if u.symbol:
@@ -251,6 +249,26 @@ def one_configuration(ctx, env, config, part, parts, label=None, products=None):
                         ctx.violation(classify_failure(x, str(x), parsed_to=q2.unit), f"str(3 * ({pname}*{uname})**{e}) = {str(Q(3, x))!r} parses to {q2!r}", {"unit": f"({pname}*{uname})**{e}"})
                 except (ParseError, KeyError) as ex:
                     ctx.violation(classify_failure(x, str(x)), f"str(3 * ({pname}*{uname})**{e}) = {str(Q(3, x))!r} does not parse: {type(ex).__name__}", {"unit": f"({pname}*{uname})**{e}"})
+
+    # ---- a prefix on a whole compound whose first factor cannot take it (centi * (m^3 * day): 3 does not divide -2): the
+    # prefix becomes a number in front today; wherever a tree puts it instead, the text must not read as another unit
+    lead = pools.units["meter"]
+    for ui, (uname, u) in enumerate(units):
+        if ui % parts != part or u is lead or not u.symbols:
+            continue
+        for pname, p in prefixes:
+            if pname is None or not isinstance(p.exponent, int):
+                continue
+            for e1 in (3, 2):
+                if p.exponent % e1 == 0:
+                    continue
+                try:
+                    x = p * (lead ** e1 * u)
+                except Exception:
+                    continue
+                ctx.count("table_cells_with_a_prefix_on_a_whole_compound")
+                roundtrip_unit(x, f"{pname}*(meter**{e1}*{uname})")
+                break
 
     # ---- units that came out of a root (an r.m.s. of ppm deviations, the side of a square in km^2): roots of powers of
     # prefixed units and of prefixed dimensionless units (kilo * One, micro * One) read back like the units they are
